@@ -112,10 +112,14 @@ func init() {
 		}
 		charset := c.Choose("content-type-charset", 2) == 1
 		http3 := c.Choose("http-version-3", 2) == 1
+		bareQuery := c.Choose("request-target-ends-in-question-mark", 2) == 1
 		call := &mxCall{Base: b, ReqMsgs: req, ReqFlags: reqFlags, Accept: accept, RespMsgs: resp, RespComp: "auto", ReqHeader: hdr, Lenient: true}
 		call.SpecMut = func(s *drive_ReqSpec) {
 			if autoCL && s.Body != nil {
 				s.ContentLength = -2
+			}
+			if bareQuery && !strings.Contains(s.Target, "?") {
+				s.Target += "?" // (an empty query: URL.ForceQuery)
 			}
 			if http3 && b.Client.form != wire.GRPC {
 				s.ProtoMajor = 3 // the client reached the server over HTTP/3
@@ -240,6 +244,11 @@ func init() {
 			if be.Seen.Method != "POST" || be.Seen.Path != world.SvcPath+b.Client.method || be.Seen.RawQuery != "" {
 				fail("request-line", "request line %s %s?%s, want POST %s", be.Seen.Method, be.Seen.Path, be.Seen.RawQuery, world.SvcPath+b.Client.method)
 			}
+		}
+		// the client's own request line must not show through: a query the client did not send, or
+		// its bare "?", on a request line the transcoder built
+		if !be.Direct && be.Seen.RawQuery == "" && strings.HasSuffix(be.Seen.URL, "?") {
+			fail("request-line", "the request-target handed to the backend ends in a bare '?' (%s): that is the client's, not part of the request the transcoder makes", be.Seen.URL)
 		}
 		// advertised response compressions: known to the transcoder and advertised by the client
 		clientAdv := map[string]bool{}
